@@ -132,8 +132,8 @@ static void runScenario(uint64_t caseNo, Rng & rng, const char * pol)
 		while(R->done.load(std::memory_order_seq_cst) < R->nthreads) {
 			std::this_thread::sleep_for(std::chrono::milliseconds(1));
 			if(++waited > 15000) {
-				const std::string cyc = findLockCycle();
-				if(! cyc.empty()) violation("deadlock:lock-cycle", cyc); else oplog("INCONCLUSIVE: threads did not finish within 15 s");
+				std::string dkey; const std::string cyc = findDeadlock(dkey);
+				if(! cyc.empty()) violation(dkey, cyc); else oplog("INCONCLUSIVE: threads did not finish within 15 s");
 				writeResult();
 				_exit(cyc.empty() ? 4 : 3);
 			}
